@@ -36,9 +36,13 @@ def budget(tier):
 
 
 def strategy(tier):
-    from bvt.props._scen import mixed
+    from hypothesis import strategies as st
 
-    return mixed(scenario(P), tier, ID)
+    from bvt.props._scen import mixed, with_stop
+
+    # a quarter of the cases: an actor stops one of the buses - often while its run loop is queued for the global lock or a handler
+    # of it is in flight; the buses that were not stopped must still exclude each other
+    return st.integers(0, 3).flatmap(lambda k: with_stop(scenario(P), 1) if k == 0 else mixed(scenario(P), tier, ID))
 
 
 def _facts(F):
@@ -82,6 +86,11 @@ def classes(F):
         cl.append('contended')
     if f and not F.sc.get('warm'):
         cl.append('bus-first-used-inside-handler')
+    for r in F.tr:
+        if r['k'] == 'a-stop-begin':
+            cl.append('stop:' + ('target-busy' if r['busy'] else ('target-running-idle' if r['started'] else 'target-never-started')))
+            if any(m[0] != r['bus'] for m in F.running_at(r['i'])):
+                cl.append('stop-while-another-bus-runs-a-handler')
     return cl
 
 
